@@ -736,7 +736,7 @@ func (r *Runner) cmd(ctx context.Context, cm syntax.Command) {
 		valType := ""
 		declQuery := "" // "-f" or "-p" for query mode
 		switch cm.Variant.Value {
-		case "declare":
+		case "declare", "typeset":
 			// When used in a function, "declare" acts as "local"
 			// unless the "-g" option is used.
 			local = r.inFunc
@@ -846,11 +846,11 @@ func (r *Runner) cmd(ctx context.Context, cm syntax.Command) {
 			} else {
 				name, vr = r.assignVal(name, vr, as, valType)
 			}
-			if global {
-				vr.Local = false
-			} else if local {
-				vr.Local = true
-			}
+			// Without "local" semantics, such as "export foo=bar" in a function,
+			// we modify the variable where it lives, like a naked assignment.
+			// Do not keep the local flag of a variable inherited from a calling
+			// function, as that would create a new local variable here.
+			vr.Local = local && !global
 			for _, mode := range modes {
 				switch mode {
 				case "-x":
